@@ -22,18 +22,54 @@ ASSUMPTIONS = [
     "task (real SIGINT delivered to asyncio.run's handler, and Task.cancel())",
     "fault classes are represented by ConnectionError and 3 subclasses, UDSException / MissingResponse, and RuntimeError / "
     "ValueError / TimeoutError / OSError / AssertionError; sys.exit codes are non-negative ints, None or a string",
-    "a database that cannot be opened is represented by a file that is not a database and by a foreign schema version; other "
-    "faults inside the framework's own steps (flock acquisition -> exit 72, artifacts directory creation, transport connect "
-    "inside Scanner.setup) are outside the property statement ('raised in setup, main or teardown') and outside the model",
-    "sqlite3 / aiosqlite, zstandard, fcntl.flock, subprocess.run are trusted to do what their documentation says",
+    "a database that cannot be opened is represented by a file that is not a database and by a foreign schema version; faults "
+    "inside `_db_finish_run_meta` (Ctrl-C while the run_meta row is completed / while the connection is closed in the "
+    "`finally:` block) are not modelled",
+    "the lock file: 'cannot be locked' is represented by a lock file below a missing directory / below a regular file (any "
+    "OSError of open / flock takes the same `except OSError` -> exit 72); 'held by somebody else' by a second descriptor in "
+    "the same process that releases it once the run has logged that it waits; Ctrl-C during that wait by SIGINT / "
+    "Task.cancel() delivered when the run has logged that it waits (the CancelledError leaves entry_point() outside the "
+    "try; in-process the blocked flock thread then gets the lock and keeps it). That the process cannot end before the "
+    "lock is free (the thread is joined; probed with a real child process: alive 4 s after SIGINT, dies by SIGINT 0.1 s "
+    "after the lock is released) is a liveness matter outside the property and outside the model",
+    "the artifacts directory: run directory names are modelled as numbers that sort like the names (`run-%Y%m%d-%H%M%S.%f` "
+    "sorts like the time for years 1000-9999); 'cannot be created' is represented by an artifacts base that is a regular file "
+    "and by an existing directory of the very name (clock pinned through `gallia.command.base.datetime`); failures after "
+    "`mkdir` (ENV dump, LATEST being a real directory, the log file not creatable) are not modelled. What the property "
+    "demands of a run that ends before it started is stated in Spec/Lifecycle.lean: exit code 72 and no record of a run on "
+    "the lock path; no exit code at all on the artifacts path (the property's endings are 'raised in setup, main or "
+    "teardown'; the OSError escaping entry_point() - traceback, status 1, lock held until the process is gone - is modelled "
+    "as it is and compared, not demanded)",
+    "the framework's own steps: PowerSupply.connect, shutil.which / Dumpcap (start returning a process or None, sync timing "
+    "out, stop), the transport's connect / close and the ECU's connect / start_cyclic_tester_present / "
+    "stop_cyclic_tester_present / properties are replaced by scripted fakes that raise where the script says (plus the real "
+    "tcp-lines transport and the real power-supply driver against a closed port); a raising `transport.close()` is taken "
+    "to leave the transport open, a raising tester-present start to leave no task behind. Not steps of the model: the "
+    "optional ECUReset, the initial ping (`wait_for_ecu`; a fault there has the effects of one at `ecu.connect()`), "
+    "`power_cycle`, the scan-run / properties rows of the database whose errors the code swallows (except that "
+    "`insert_scan_run`'s handler formats the exception with `{e:!r}`, which itself raises TypeError - then it behaves like "
+    "an unexpected error at `ecu.connect()`); their position in the source is pinned by `setup_teardown_order_agrees`",
+    "sqlite3 / aiosqlite, zstandard, fcntl.flock, subprocess.run, pathlib are trusted to do what their documentation says",
 ]
 
-QUIRKS = os.environ.get("C15_QUIRKS", "0000")  # diagnostic only: compare against the model of the pinned tree ("111")
+QUIRKS = os.environ.get("C15_QUIRKS", "00000")  # diagnostic only: compare against the model of the pinned tree ("11110")
 QUIRK_NAMES = ["run_hook reads the unbound `p` when the script fails", "Scanner.teardown disconnects the database itself",
-               "no except clause for CancelledError", "_db_insert_run_meta() outside the try, connect() leaks on failure"]
+               "no except clause for CancelledError", "_db_insert_run_meta() outside the try, connect() leaks on failure",
+               "artifacts_dir.mkdir(exist_ok=True)"]
+NQ = len(QUIRK_NAMES)
 KINDS = ["plain", "scanner", "uds"]
 POINTS = ["setup", "main", "tdPre", "tdPost"]
 FAULTS = ["exit:0", "exit:3", "exitx", "conn", "uds", "other", "kbd", "cancel"]
+# the framework's own steps, in the order of the driver's script words; which command kinds have them
+FSETUP = ["power", "connect", "ecuConnect", "tpStart", "propsPre"]
+FTEARDOWN = ["propsPost", "tpStop", "ecuClose", "close", "dcStop"]
+FPOINTS = FSETUP + FTEARDOWN
+UDS_ONLY = {"ecuConnect", "tpStart", "propsPre", "propsPost", "tpStop", "ecuClose"}
+DUMPCAPS = ["started", "none", "missing", "sync"]
+FLAGS = ["power", "dumpcap_on", "tp", "props"]
+SCRIPT_ORDER = ["pre", "dbopen", "f_power", "f_dumpcap", "f_connect", "f_ecuConnect", "f_tpStart", "f_propsPre", "setup", "main",
+                "tdPre", "f_propsPost", "f_tpStop", "f_ecuClose", "f_close", "f_dcStop", "tdPost", "post"]
+NOW = 10  # c15_runner.NOW_NAT
 HOW = {
     "conn": ["base", "pipe", "reset", "refused"],
     "uds": ["base", "missing"],
@@ -42,38 +78,102 @@ HOW = {
     "dbopen": ["garbage", "schema-version"],
     "exitx": [None, "fatal: text"],
 }
+HOW_F = {"connect": ["fake", "real-refused"], "power": ["fake", "real-refused"], "lock": ["nodir", "notdir"],
+         # Ctrl-C at the tester-present stop: after the task is gone / while teardown is about to await the task
+         "tpStop": ["after", "on-entry"]}
 RES = ["lock", "art", "db", "hooks"]
 
 
-def mk(kind="plain", res="0000", pre="ok", post="ok", dbopen="ok", how=None, **ev):
+def mk(kind="plain", res="0000", pre="ok", post="ok", dbopen="ok", how=None, flags="0000", world=None, **ev):
     c = {"kind": kind, "pre": pre, "post": post, "dbopen": dbopen}
     for r, b in zip(RES, res):
         c[r] = b == "1"
+    for r, b in zip(FLAGS, flags):
+        c[r] = b == "1"
     for p in POINTS:
         c[p] = ev.get(p, "ok")
+    for p in FPOINTS:
+        if ev.get("f_" + p, "ok") != "ok":
+            c["f_" + p] = ev["f_" + p]
+    if ev.get("f_dumpcap", "started") != "started":
+        c["f_dumpcap"] = ev["f_dumpcap"]
     if how:
         c["how"] = how
+    if world:
+        c["world"] = world
     return c
+
+
+def norm(c):
+    """a case with every optional field filled in (cases of earlier rounds have none of the new ones)"""
+    d = dict(c)
+    for r in FLAGS:
+        d.setdefault(r, False)
+    for p in FPOINTS:
+        d.setdefault("f_" + p, "ok")
+    d.setdefault("f_dumpcap", "started")
+    d.setdefault("dbopen", "ok")
+    w = dict(d.get("world") or {})
+    w.setdefault("lock", "free")
+    w.setdefault("base", "ok")
+    w.setdefault("runs", [])
+    w.setdefault("latest", None)
+    if not d["art"]:   # without an artifacts base there is no directory the earlier runs could be in
+        w["base"], w["runs"], w["latest"] = "ok", [], None
+    d["world"] = w
+    return d
 
 
 def res_bits(c):
     return "".join("1" if c[r] else "0" for r in RES)
 
 
+def cfg_bits(c):
+    c = norm(c)
+    return "".join("1" if c[r] else "0" for r in RES + FLAGS)
+
+
 def script_words(c):
-    return [c["pre"], c.get("dbopen", "ok")] + [c[p] for p in POINTS] + [c["post"]]
+    c = norm(c)
+    return [c[k] for k in SCRIPT_ORDER]
+
+
+def world_token(c):
+    w = norm(c)["world"]
+    runs = "/".join(f"{NOW + when}:{'-' if tag is None else tag}" for when, tag in w["runs"]) or "-"
+    latest = "-" if w["latest"] is None else str(NOW + w["latest"])
+    return f"lock={w['lock']};base={'1' if w['base'] == 'ok' else '0'};now={NOW};runs={runs};latest={latest}"
+
+
+def world_benign(c):
+    w = norm(c)["world"]
+    return w["lock"] == "free" and w["base"] == "ok" and not w["runs"] and w["latest"] is None
 
 
 def describe(c):
-    """canonical short text of a case: only what differs from the all-off / all-ok run"""
-    parts = [c["kind"]] + [r for r in RES if c[r]]
-    parts += [f"{k}={c[k]}" for k in ["pre", "dbopen"] + POINTS + ["post"] if c.get(k, "ok") != "ok"]
+    """canonical short text of a case: only what differs from the all-off / all-ok run in a benign world"""
+    c = norm(c)
+    parts = [c["kind"]] + [r for r in RES + FLAGS if c[r]]
+    parts += [f"{k}={c[k]}" for k in SCRIPT_ORDER if c[k] not in ("ok", "started")]
+    w = c["world"]
+    if c["f_tpStop"] == "cancel" and (c.get("how") or {}).get("tpStop") == "on-entry":
+        parts.append("ctrl-c-before-the-tester-present-task-is-awaited")
+    if w["lock"] != "free":
+        parts.append("lockfile=" + w["lock"])
+    if w["base"] != "ok":
+        parts.append("artifacts_base=" + w["base"])
+    if w["runs"]:
+        parts.append("earlier_runs=" + ",".join(f"{when:+d}{'' if tag is not None else '(no META)'}" for when, tag in w["runs"]))
+    if w["latest"] is not None:
+        parts.append(f"LATEST={w['latest']:+d}")
     return ":".join(parts)
 
 
 def complexity(c):
-    return (sum(1 for k in ["pre", "dbopen"] + POINTS + ["post"] if c.get(k, "ok") != "ok"), sum(1 for r in RES if c[r]),
-            KINDS.index(c["kind"]), describe(c))
+    c = norm(c)
+    w = c["world"]
+    return (sum(1 for k in SCRIPT_ORDER if c[k] not in ("ok", "started")) + (0 if world_benign(c) else 1) + len(w["runs"]),
+            sum(1 for r in RES + FLAGS if c[r]), KINDS.index(c["kind"]), describe(c))
 
 
 # ---- canonical form of an observation -----------------------------------------------------------------------
@@ -91,11 +191,13 @@ def impl_final(case, o):
     rk = rank_map(t.values())
     ex = o["exit"]
     if ex == "raise:cancelled":
-        ex = "esc:cancelled"
+        ex = "esc:lockwait" if o.get("exit_in_lock_wait") else "esc:cancelled"
     elif ex == "raise:UnboundLocalError":
         ex = "esc:hook"
     elif ex in ("raise:DatabaseError", "raise:ValueError", "raise:OperationalError") and case.get("dbopen") == "fail" and case["db"]:
         ex = "esc:db"
+    elif ex.startswith("raise:") and o.get("exit_in_artifacts"):
+        ex = "esc:art"   # an OSError out of prepare_artifacts_dir
     elif ex.startswith("raise:"):
         direct.append("escaped:" + ex[6:])
         ex = "esc:hook"
@@ -141,11 +243,22 @@ def impl_final(case, o):
             direct.append("pre-hook-env-has-exit-or-meta")
     reports = ",".join(o["reports"]) or "-"
     trace = ",".join(x.replace(" ", "") for x in o["trace"]) or "-"
+    runs = "/".join(f"{n}:{'-' if tag is None else tag}" for n, tag in o.get("runs", [])) or "-"
+    if any(tag is not None and (not isinstance(tag, int) or tag < 0) for _, tag in o.get("runs", [])):
+        direct.append("meta-of-a-run-directory-malformed")
+        runs = "-"
+    opt = lambda v: "-" if v is None else str(v)  # noqa: E731
     fin = (f"exit={ex} meta={meta} db={db} dbclosed={int(o['db_closed'])} logclosed={int(o['log_closed'])} "
            f"lock={int(o['lock_released'])} pre={int(pre)} post={post} reports={reports} "
-           f"tclosed={int(o['transport_closed'])} trace={trace}")
+           f"tclosed={int(o['transport_closed'])} trace={trace} tpstopped={int(o.get('tp_stopped', True))} "
+           f"dcstopped={int(o.get('dc_stopped', True))} waited={int(o.get('waited', False))} artdir={opt(o.get('artdir'))} "
+           f"runs={runs} latest={opt(o.get('latest'))}")
+    if o.get("art_before_lock"):
+        direct.append("artifacts-dir-created-while-somebody-else-held-the-lock")
+    if not o.get("artdir_under_base", True):
+        direct.append("artifacts-dir-outside-artifacts-base")
     # things the model does not carry but the property names
-    if case["art"]:
+    if case["art"] and o.get("artdir") is not None:
         if o["log_closed"] and o["log"] != "complete":
             direct.append("log-not-fully-readable:" + o["log"].split(":")[0])
         if o["meta"].isdigit():
@@ -204,9 +317,12 @@ def strip_times(f):
     return g
 
 
-def tie_diff(model_fin, impl_fin):
+def tie_diff(model_fin, impl_fin, o=None):
     """names of the fields on which model and implementation differ (times: order consistency only)"""
     fm, fi = split_final(model_fin), split_final(impl_fin)
+    extra = []
+    if o and o.get("lock_wait") == "watchdog":
+        extra.append("lock-wait:event-loop-blocked")  # the model waits in a thread: the loop keeps running
     sm, si = strip_times(fm), strip_times(fi)
     diff = [k for k in sm if sm[k] != si.get(k)]
     tm, ti = time_fields(fm), time_fields(fi)
@@ -217,7 +333,7 @@ def tie_diff(model_fin, impl_fin):
                 diff.append(f"time-order:{a},{b}")
     elif "meta" not in diff and "db" not in diff and "post" not in diff:
         diff.append("time-fields")
-    return diff
+    return diff + extra
 
 
 # ---- case sets ----------------------------------------------------------------------------------------------
@@ -235,16 +351,34 @@ def single_scripts():
 
 
 def pick_how(rng, c):
-    how = {}
-    for p in POINTS:
-        k = c[p]
+    how = dict(c.get("how") or {})
+    for p in POINTS + ["f_" + q for q in FPOINTS]:
+        k = c.get(p, "ok")
         if k in HOW:
-            how[k] = rng.choice(HOW[k])
+            how.setdefault(k, rng.choice(HOW[k]))
     if c.get("dbopen") == "fail":
-        how["dbopen"] = rng.choice(HOW["dbopen"])
+        how.setdefault("dbopen", rng.choice(HOW["dbopen"]))
+    if c.get("f_tpStop") == "cancel":
+        how.setdefault("tpStop", rng.choice(HOW_F["tpStop"]))
     if how:
         c["how"] = how
     return c
+
+
+def fpoints_of(kind):
+    return [] if kind == "plain" else [p for p in FPOINTS if kind == "uds" or p not in UDS_ONLY]
+
+
+def worlds():
+    """artifact-base situations: (label, world fragment)"""
+    return [
+        ("fresh", {}),
+        ("older-runs", {"runs": [[-2, 1001], [-1, 1002]], "latest": -1}),
+        ("newer-run", {"runs": [[-1, 1003], [2, 1004]], "latest": 2}),
+        ("run-without-meta", {"runs": [[-3, None], [1, 1005]], "latest": None}),
+        ("same-name", {"runs": [[0, 1006], [-1, 1007]], "latest": 0}),
+        ("base-is-a-file", {"base": "file"}),
+    ]
 
 
 def build_cases(ctx):
@@ -281,22 +415,109 @@ def build_cases(ctx):
                         for res in ("1111", rng.choice(all_res())):
                             cases.append(("fault-pairs", pick_how(rng, mk(kind, res, main=a, **{p: b}))))
         ctx.exhaustive_parts.append("all pairs (fault in main, fault in teardown before / after super().teardown()) x 3 kinds")
-    # 4. seeded: two to four faults, hook failures mixed in, arbitrary exit codes
-    for _ in range(ctx.pick(200, 1500)):
+    # 4. the framework's own steps: every fault at every step of Scanner / UDSScanner setup and teardown
+    flagsets = ["1111"] + (["".join(b) for b in itertools.product("01", repeat=4)] if full else [])
+    for kind in ("scanner", "uds"):
+        for p in fpoints_of(kind):
+            for f in FAULTS:
+                for res in (all_res() if full else ["1111", "0110", "0000", rng.choice(all_res())]):
+                    fl = "1111" if not full else rng.choice(flagsets)
+                    cases.append(("framework-steps", pick_how(rng, mk(kind, res, flags=fl, **{"f_" + p: f}))))
+        for d in DUMPCAPS:
+            for res in (all_res() if full else ["1111", "0110", "0100"]):
+                cases.append(("framework-steps", mk(kind, res, flags="1111", f_dumpcap=d)))
+                cases.append(("framework-steps", pick_how(rng, mk(kind, res, flags="1111", f_dumpcap=d, f_connect="conn"))))
+        if kind == "uds":   # Ctrl-C at the tester-present stop, both moments x both mechanisms
+            for when in HOW_F["tpStop"]:
+                for mech in HOW["cancel"]:
+                    for res in ("1111", "0110", "0000"):
+                        for sc in ({}, {"main": "exit:3"}):
+                            cases.append(("framework-steps", mk(kind, res, flags=rng.choice(["0010", "0011", "1111"]), f_tpStop="cancel",
+                                                                how={"cancel": mech, "tpStop": when}, **sc)))
+        # the real transport / the real power supply driver against a port nobody listens on
+        for res in ("1111", "0110", "0000"):
+            cases.append(("refused-connection", mk(kind, res, flags="1111", f_connect="conn", how={"connect": "real-refused"})))
+            cases.append(("refused-connection", mk(kind, res, flags="1111", f_power="conn", how={"power": "real-refused"})))
+            cases.append(("refused-connection", mk(kind, res, flags="0000", f_connect="conn", how={"connect": "real-refused"})))
+        # each switch on / off on its own (the guards of the steps)
+        for fl in ["".join(b) for b in itertools.product("01", repeat=4)]:
+            for res in ("1111", "0000"):
+                cases.append(("step-guards", mk(kind, res, flags=fl)))
+                cases.append(("step-guards", mk(kind, res, flags=fl, tdPre="other")))
+    ctx.exhaustive_parts.append("every exit kind at every framework step (power supply, dumpcap started / not started / missing / "
+                                "not coming up, transport connect, ecu.connect, tester-present start, properties, properties in "
+                                "teardown, tester-present stop, ecu.transport.close, transport.close, dumpcap.stop) x scanner / UDS "
+                                "scanner x " + ("2^4 resource combinations" if full else "4 resource combinations") +
+                                "; the real tcp-lines transport and the real power-supply driver against a closed port; all 2^4 "
+                                "combinations of the switches power-supply / dumpcap / tester-present / properties")
+    # 5. exception precedence: fault in main x fault in a framework teardown step
+    pairs = [(kind, a, p, b) for kind in ("scanner", "uds") for p in fpoints_of(kind) if p in FTEARDOWN
+             for a in FAULTS for b in FAULTS]
+    if not full:
+        pairs = rng.sample(pairs, 160)
+    for kind, a, p, b in pairs:
+        cases.append(("main-x-framework-teardown", pick_how(rng, mk(kind, "1111", flags="1111", main=a, **{"f_" + p: b}))))
+    # 5b. order of the steps: two neighbouring steps both failing, with different exit codes (the first one must win)
+    for kind in ("scanner", "uds"):
+        for seq in ([p for p in FSETUP if p in fpoints_of(kind)] + ["setup"],
+                    ["tdPre"] + [p for p in FTEARDOWN if p in fpoints_of(kind)] + ["tdPost"]):
+            for p, q in zip(seq, seq[1:]):
+                for a, b in (("exit:3", "conn"), ("other", "kbd"), ("uds", "exit:5")):
+                    key = lambda x: x if x in POINTS else "f_" + x  # noqa: E731
+                    cases.append(("neighbouring-steps", pick_how(rng, mk(kind, rng.choice(["1111", "0110"]), flags="1111",
+                                                                          **{key(p): a, key(q): b}))))
+    # 6. the prologue: lock file free / held by another descriptor / not lockable x artifacts base situations
+    for kind in (KINDS if full else ["plain", "uds"]):
+        for lock in ("free", "busy", "broken", "interrupted"):
+            for label, wfrag in worlds():
+                for res in ("1111", "1100", "0111", "1011", "0100", "1000"):
+                    if lock != "free" and res[0] == "0":
+                        continue
+                    if wfrag and res[1] == "0":
+                        continue
+                    for sc in ({}, {"main": "exit:3"}, {"setup": "conn"}, {"pre": "fail", "tdPost": "kbd"}):
+                        if not full and sc and res not in ("1111", "1100"):
+                            continue
+                        w = dict(wfrag, lock=lock)
+                        c = mk(kind, res, flags="1111" if kind != "plain" else "0000", world=w, **sc)
+                        if lock == "broken":
+                            c.setdefault("how", {})["lock"] = rng.choice(HOW_F["lock"])
+                        if lock == "interrupted":
+                            c.setdefault("how", {})["cancel"] = rng.choice(HOW["cancel"])
+                        cases.append(("prologue", pick_how(rng, c)))
+    ctx.exhaustive_parts.append("lock file free / held by a second descriptor until the run says it waits / held while "
+                                "Ctrl-C (SIGINT, Task.cancel) arrives during the wait / in a missing directory or below a regular "
+                                "file x artifacts base fresh / with older runs / with a newer-named "
+                                "run / with a run without META.json / with a directory of the very name this run gets (clock "
+                                "pinned) / being a regular file x resource combinations x 4 scripts")
+    # 7. seeded: two to four faults anywhere, hook failures mixed in, arbitrary exit codes, any world
+    wl = worlds()
+    for _ in range(ctx.pick(260, 2000)):
         kind = rng.choice(KINDS)
         res = rng.choice(["1111", "1111", rng.choice(all_res())])
         ev = {}
-        for p in rng.sample(POINTS, rng.choice([2, 2, 3, 4])):
+        pts = POINTS + ["f_" + p for p in fpoints_of(kind)]
+        for p in rng.sample(pts, rng.choice([1, 2, 2, 3, 4])):
             f = rng.choice(FAULTS)
             if f.startswith("exit:") and rng.random() < 0.5:
-                f = "exit:" + str(rng.choice([1, 2, 64, 70, 74, 130, 255, rng.randrange(256)]))
+                f = "exit:" + str(rng.choice([1, 2, 64, 70, 72, 74, 130, 255, rng.randrange(256)]))
             ev[p] = f
+        if kind != "plain" and rng.random() < 0.3:
+            ev["f_dumpcap"] = rng.choice(DUMPCAPS)
+        world = None
+        if rng.random() < 0.4:
+            world = dict(rng.choice(wl)[1], lock=rng.choice(["free", "free", "busy", "broken", "interrupted"]))
         c = mk(kind, res, pre=rng.choice(["ok", "ok", "fail"]), post=rng.choice(["ok", "ok", "fail"]),
-               dbopen=rng.choice(["ok"] * 5 + ["fail"]), **ev)
+               dbopen=rng.choice(["ok"] * 5 + ["fail"]), flags="".join(rng.choice("01") for _ in range(4)), world=world, **ev)
+        if world and world["lock"] == "broken":
+            c.setdefault("how", {})["lock"] = rng.choice(HOW_F["lock"])
+        if world and world["lock"] == "interrupted":
+            c.setdefault("how", {})["cancel"] = rng.choice(HOW["cancel"])
         cases.append(("multi-fault", pick_how(rng, c)))
-    # 5. the UDS scanner with its initial ping (wait_for_ecu: 0.5 s of real time each)
+    # 8. the UDS scanner with its initial ping (wait_for_ecu: 0.5 s of real time each)
     for _ in range(ctx.pick(6, 32)):
-        c = mk("uds", rng.choice(["1111", "0110", "0010"]), **{rng.choice(POINTS): rng.choice(FAULTS)})
+        c = mk("uds", rng.choice(["1111", "0110", "0010"]), flags=rng.choice(["0000", "0011", "1111"]),
+               **{rng.choice(POINTS): rng.choice(FAULTS)})
         c = pick_how(rng, c)
         c.setdefault("how", {})["ping"] = True
         cases.append(("uds-with-ping", c))
@@ -330,11 +551,11 @@ class Runner:
 def evaluate(ctx, runner, cases):
     """-> list of (impl_final, model_final, spec clauses broken by the implementation, direct findings, tie diff)"""
     obs = runner.run(cases)
-    model = ctx.lean([" ".join(["run", QUIRKS, c["kind"], res_bits(c)] + script_words(c)) for c in cases])
+    model = ctx.lean([" ".join(["run", QUIRKS, world_token(c), c["kind"], cfg_bits(c)] + script_words(c)) for c in cases])
     fins = [impl_final(c, o) for c, o in zip(cases, obs)]
     idx = [i for i, (f, _, _) in enumerate(fins) if f is not None]
-    spec = ctx.lean([" ".join(["spec", cases[i]["kind"], res_bits(cases[i])] + script_words(cases[i]) + ["|", fins[i][0]])
-                     for i in idx])
+    spec = ctx.lean([" ".join(["spec", world_token(cases[i]), cases[i]["kind"], cfg_bits(cases[i])] + script_words(cases[i])
+                               + ["|", fins[i][0]]) for i in idx])
     spec_by = dict(zip(idx, spec))
     out = []
     for i, (c, o) in enumerate(zip(cases, obs)):
@@ -346,28 +567,51 @@ def evaluate(ctx, runner, cases):
         clauses = [] if sv == "ok" else sv.split(",")
         if sv == "bad-op":
             clauses = ["unparseable-observation"]
-        out.append((fin, model[i], clauses, direct, tie_diff(model[i], fin), o))
+        out.append((fin, model[i], clauses, direct, tie_diff(model[i], fin, o), o))
     return out
 
 
 def simplifications(c):
     """candidate simpler cases, fixed order"""
+    c = norm(c)
     for k in KINDS[: KINDS.index(c["kind"])]:
-        yield {**c, "kind": k}
-    for p in ["pre", "dbopen"] + POINTS + ["post"]:
-        if c.get(p, "ok") != "ok":
-            yield {**c, p: "ok"}
-    for r in RES:
+        d = {**c, "kind": k}
+        if k == "plain":
+            for p in FPOINTS:
+                d["f_" + p] = "ok"
+            d["f_dumpcap"] = "started"
+            for r in FLAGS:
+                d[r] = False
+        elif k == "scanner":
+            for p in UDS_ONLY:
+                d["f_" + p] = "ok"
+        yield d
+    w = c["world"]
+    if not world_benign(c):
+        yield {**c, "world": {}}
+        if w["lock"] != "free":
+            yield {**c, "world": {**w, "lock": "free"}}
+        if w["base"] != "ok":
+            yield {**c, "world": {**w, "base": "ok"}}
+        if w["latest"] is not None:
+            yield {**c, "world": {**w, "latest": None}}
+        for i in range(len(w["runs"])):
+            yield {**c, "world": {**w, "runs": w["runs"][:i] + w["runs"][i + 1:],
+                                  "latest": w["latest"] if any(x[0] == w["latest"] for j, x in enumerate(w["runs"]) if j != i) else None}}
+    for p in SCRIPT_ORDER:
+        if c[p] not in ("ok", "started"):
+            yield {**c, p: "started" if p == "f_dumpcap" else "ok"}
+    for r in RES + FLAGS:
         if c[r]:
             yield {**c, r: False}
     if "how" in c:
         d = dict(c)
         del d["how"]
         yield d
-    for p in POINTS:  # canonical position of a fault: main
+    for p in POINTS:  # canonical position of a fault of the command's own code: main
         if p != "main" and c[p] != "ok" and c["main"] == "ok":
             yield {**c, p: "ok", "main": c[p]}
-    for p in POINTS:
+    for p in POINTS + ["f_" + q for q in FPOINTS]:
         if c[p].startswith("exit:") and c[p] not in ("exit:3",):
             yield {**c, p: "exit:3"}
 
@@ -389,9 +633,11 @@ def shrink(ctx, runner, case, pred):
 
 def run(ctx):
     workers = ctx.pick(8, 16)
-    ctx.rule = ("one real entry_point() run per case = (command kind, lock / artifacts / db / hooks on-off, hook scripts ok-fail, "
-                "event at setup / main / teardown-before-super / teardown-after-super); distinct = distinct case incl. the "
-                "concrete exception class; non-trivial = at least one resource on or one fault")
+    ctx.rule = ("one real entry_point() run per case = (world: lock file state, earlier run directories; command kind; lock / "
+                "artifacts / db / hooks / power-supply / dumpcap / tester-present / properties on-off; hook scripts ok-fail; "
+                "event at setup / main / teardown-before-super / teardown-after-super and at each framework step); distinct = "
+                "distinct case incl. the concrete exception class; non-trivial = at least one resource on, one fault or a "
+                "non-benign world")
     labelled = build_cases(ctx)
     cases = [c for _, c in labelled]
     runner = Runner(workers)
@@ -402,14 +648,21 @@ def run(ctx):
         for i, ((label, c), (fin, mod, clauses, direct, diff, o)) in enumerate(zip(labelled, results)):
             ctx.ev()
             ctx.kind("set:" + label, "kind:" + c["kind"], "resources:" + res_bits(c))
-            for p in POINTS:
-                if c[p] != "ok":
-                    ctx.kind(f"{p}:{c[p].split(':')[0]}")
+            nc = norm(c)
+            for p in POINTS + ["f_" + q for q in FPOINTS]:
+                if nc[p] != "ok":
+                    ctx.kind(f"{p}:{nc[p].split(':')[0]}")
+            if nc["f_dumpcap"] != "started":
+                ctx.kind("dumpcap:" + nc["f_dumpcap"])
+            if not world_benign(c):
+                ctx.kind("lockfile:" + nc["world"]["lock"], "artifacts-base:" + (
+                    "file" if nc["world"]["base"] != "ok" else "same-name" if any(w == 0 for w, _ in nc["world"]["runs"])
+                    else "earlier-runs" if nc["world"]["runs"] else "fresh"))
             if c["pre"] == "fail" or c["post"] == "fail":
                 ctx.kind("hook-failure")
             if c["dbopen"] == "fail":
                 ctx.kind("db-open-failure")
-            if any(c[r] for r in RES) or any(c[p] != "ok" for p in ["pre", "post", "dbopen"] + POINTS):
+            if any(nc[r] for r in RES + FLAGS) or any(nc[p] not in ("ok", "started") for p in SCRIPT_ORDER) or not world_benign(c):
                 ctx.nontrivial(json.dumps(c, sort_keys=True))
             if i in (0, 7, 40, 100):
                 ctx.sample({"case": describe(c), "impl": fin, "model": mod})
@@ -461,9 +714,9 @@ def run(ctx):
             fin, mod, clauses, direct, diff, o = r
             key = f"{gk}:{name}@{describe(small)}"
             # which of the repaired behaviours of the pinned tree, switched on in the model, reproduces this run?
-            alts = ctx.lean([" ".join(["run", "".join(q), small["kind"], res_bits(small)] + script_words(small))
-                             for q in itertools.product("01", repeat=4)])
-            match = [q for q, a in zip(itertools.product("01", repeat=4), alts) if fin is not None and not tie_diff(a, fin)]
+            alts = ctx.lean([" ".join(["run", "".join(q), world_token(small), small["kind"], cfg_bits(small)] + script_words(small))
+                             for q in itertools.product("01", repeat=NQ)])
+            match = [q for q, a in zip(itertools.product("01", repeat=NQ), alts) if fin is not None and not tie_diff(a, fin)]
             like = ""
             if match and gk != "tie":
                 q = min(match, key=lambda q: q.count("1"))
@@ -508,23 +761,41 @@ def replay(ctx, case):
 
 
 MANIFEST = {
-    "level_text": ("Lean 4 theorems over a statement-by-statement model of BaseCommand.entry_point / AsyncScript.run / "
-                   "Scanner+UDSScanner setup-teardown / run_hook (Model/Lifecycle.lean): for every resource combination, command "
-                   "kind, hook outcome, database opening or not, and every exit kind (return, sys.exit(n), sys.exit(non-int), expected / unexpected error, "
-                   "KeyboardInterrupt, cancellation of the main task) at setup, main, teardown-before-super and teardown-after-super "
-                   "the returned code follows the mapping 0 / n / 74 / 70 / 130, META.json and the run_meta row carry that code "
-                   "with ordered times, the log handler is closed, the database disconnected, the lock released, the post-hook "
-                   "sees the same code and META, and failing hooks are reported and change nothing. The except ladder, statement "
-                   "order, exit constants and CATCHED_EXCEPTIONS are regenerated from the AST / live modules with agreement "
-                   "theorems. Tied to the code by running the real entry_point() (three tiny command classes, fake in-process "
-                   "transport, real sqlite, flock probed from a second fd, zstd log decoded with PenlogReader, recording hook "
-                   "scripts, real SIGINT) over the crash-point matrix and comparing with the model and the executable spec; plus "
-                   "one shipped command end to end (`discover doip` with --db against a closed port)."),
+    "level_text": ("Lean 4 theorems over a statement-by-statement model of BaseCommand.entry_point (lock file, artifacts "
+                   "directory, log handler, hooks, try / except ladder / finally) / AsyncScript.run / Scanner + UDSScanner setup "
+                   "and teardown as lists of awaited steps / run_hook (Model/Lifecycle.lean): for every world (lock file free / "
+                   "held by somebody else / held and Ctrl-C during the wait / not lockable; any set of earlier run directories, any clock reading, artifacts base "
+                   "writable or not), every resource combination (lock, artifacts, database, hooks, power supply, dumpcap, "
+                   "tester-present task, properties), command kind, hook outcome, database opening or not, and every exit kind "
+                   "(return, sys.exit(n), sys.exit(non-int), expected / unexpected error, KeyboardInterrupt, cancellation of the "
+                   "main task) at setup, main, teardown-before-super, teardown-after-super and at each of the framework's own "
+                   "steps (power-supply connect, dumpcap, transport connect, ecu.connect, tester-present start / stop, "
+                   "properties, ecu.transport.close, transport.close, dumpcap.stop): the returned code follows the mapping 0 / n / "
+                   "74 / 70 / 130 (72 and nothing else when the lock cannot be taken, the cancellation and nothing else when Ctrl-C "
+                   "arrives while waiting for the lock), META.json and the run_meta row carry that "
+                   "code with ordered times, the log handler is closed, the database disconnected, the lock held throughout and "
+                   "released, the post-hook sees the same code and META, failing hooks are reported and change nothing; a failing "
+                   "setup step skips main and teardown, a raising teardown step replaces whatever main did, the artifacts "
+                   "directory is fresh (no earlier run's META.json is ever overwritten; LATEST points at the name-wise last run), "
+                   "a busy lock only delays the run; which half-finished setups / teardowns leave the transport, the "
+                   "tester-present task or dumpcap behind is characterised exactly. The except ladder, the statement order of "
+                   "entry_point, prepare_artifacts_dir and the four setup / teardown methods with their guards, the exit "
+                   "constants (incl. OSFILE), mkdir's flags and CATCHED_EXCEPTIONS are regenerated from the AST / live modules "
+                   "with agreement theorems. Tied to the code by running the real entry_point() (three tiny command classes; "
+                   "fake transport / ECU / power supply / dumpcap that raise on script, the real tcp-lines transport and "
+                   "power-supply driver against a closed port; real sqlite, flock probed and held from a second fd, pre-made run "
+                   "directories and LATEST, pinned clock, zstd log decoded with PenlogReader, recording hook scripts, real SIGINT) "
+                   "over the crash-point matrix and comparing with the model and the executable spec; plus one shipped command "
+                   "end to end (`discover doip` with --db against a closed port)."),
     "level_note": ("Trusted: Lean kernel (propext, Quot.sound, Classical.choice), the translator gen/c15_exit.py, the harness, "
-                   "sqlite3/aiosqlite, zstandard, flock, subprocess. Partial: process-level signal delivery and interpreter exit are "
-                   "represented by KeyboardInterrupt / task cancellation and by the return value of entry_point(); faults inside "
-                   "the framework's own pre-run steps other than opening the database (lock acquisition, artifacts dir, transport "
-                   "connect) are not modelled; config re-creation is only checked by round-tripping META.json's config through CONFIG_TYPE (C18 owns it)."),
-    "technique": "Lean 4 proof (case analysis over a total lifecycle model, regenerated ladder/constant tables) + differential correspondence against real entry_point() runs",
+                   "sqlite3/aiosqlite, zstandard, flock, subprocess, pathlib. Partial: process-level signal delivery and "
+                   "interpreter exit are represented by KeyboardInterrupt / task cancellation and by the return value of "
+                   "entry_point(); that a process interrupted while waiting for a busy lock only ends once the lock is free, faults "
+                   "inside the finally block's database completion, "
+                   "failures of prepare_artifacts_dir after mkdir and the optional ECUReset / ping / power-cycle steps are not "
+                   "modelled; for a run whose artifacts directory cannot be created the property names no ending, the model "
+                   "follows the code (OSError escapes); config re-creation is only checked by round-tripping META.json's config "
+                   "through CONFIG_TYPE (C18 owns it)."),
+    "technique": "Lean 4 proof (induction over step lists + case analysis over a total lifecycle model, regenerated ladder / order / guard / constant tables) + differential correspondence against real entry_point() runs",
     "design_ref": "DESIGN.md section 7, C15",
 }
